@@ -230,6 +230,10 @@ def check(run):
         run.broke('only %d sites surface a queued packet error (2 confirmed by hand: available, read_some_impl)' % n_eof)
     run.clause('R9 scatter reads deliver the segment bytes in order: a copy made per receive buffer reads from a source the loop advances (front-erase or running offset)')
     ncp = engines.copy_sources_advance(run, [f for f in fx.repo_functions() if q.top_function(fx, f).cls == T])
+    run.clause('scatter reads fill each user buffer from its start: the offset into the current buffer is re-assigned whenever the buffer cursor is stepped')
+    npair = engines.cursor_offset_pairs(run, [f for f in fx.repo_functions() if q.top_function(fx, f).cls == T])
+    if npair < 1:
+        run.broke('tcp::socket: no <cursor>->data() + <offset> copy operand found in a loop (read_some_impl idiom changed)')
     if ncp < 1:
         run.broke('tcp::socket: no copy out of the incoming queue found in a loop (read idiom changed)')
     run.clause('the byte stream reaches the PEER: data segments, retransmissions and ACKs are sent on the hops of their own direction (shared with C09)')
